@@ -56,16 +56,46 @@ pub struct Scenario {
     pub wait_for_synchronized: u32,
     /// likewise for publications of any status
     pub wait_for_publications: u32,
+    /// additional environment of the daemon (LD_PRELOAD of `shim()` and its CBV_SHIM_* switches)
+    pub env: Vec<(String, String)>,
+    /// 1: the daemon's stdout, 2: its stderr is a device on which every write fails (a full log disk, a log pipe
+    /// whose reader is gone); the other stream is /dev/null. (With both failing the unmodified daemon dies at its
+    /// first log line - tracing-subscriber reports a failed write on stderr with eprintln!, which panics when that
+    /// fails too - whatever the segment holds; no listed property speaks about that, see DESIGN 10.3.)
+    pub stdio_full: u8,
+    /// interfaces without a device behind them (a bond, a bridge, `lo`): /sys/devices/virtual/net/<name> and the
+    /// /sys/class/net/<name> link to it, as the kernel shows them
+    pub virtual_ifaces: Vec<&'static str>,
 }
 
 impl Scenario {
     pub fn blank() -> Scenario {
-        Scenario { name: "", args: vec![], chronyd: None, phc: PhcFile::Absent, preexisting: None, observe_ms: 1000, block_directory: false, chronyd_delay_ms: 0, reply_delays_ms: vec![], tag_replies: false, udp_only: false, wait_for_synchronized: 0, wait_for_publications: 0 }
+        Scenario { name: "", args: vec![], chronyd: None, phc: PhcFile::Absent, preexisting: None, observe_ms: 1000, block_directory: false, chronyd_delay_ms: 0, reply_delays_ms: vec![], tag_replies: false, udp_only: false, wait_for_synchronized: 0, wait_for_publications: 0, env: vec![], stdio_full: 0, virtual_ifaces: vec![] }
     }
 }
 
 pub fn binary(ctx: &Ctx) -> String {
     std::env::var("PLAIN_TARGET").map(|t| format!("{t}/release/clockbound")).unwrap_or_else(|_| ctx.verif_dir.join("target/plain/release/clockbound").to_string_lossy().to_string())
+}
+
+/// harness/cabi/envshim.c as a shared object next to the plain build (see that file for what it can do)
+pub fn shim(ctx: &Ctx) -> Result<String, String> {
+    let plain = std::env::var("PLAIN_TARGET").unwrap_or_else(|_| ctx.verif_dir.join("target/plain").to_string_lossy().to_string());
+    let out = format!("{plain}/envshim.so");
+    let src = ctx.verif_dir.join("harness/cabi/envshim.c");
+    let fresh = match (std::fs::metadata(&out).and_then(|m| m.modified()), std::fs::metadata(&src).and_then(|m| m.modified())) {
+        (Ok(o), Ok(s)) => o > s,
+        _ => false,
+    };
+    if !fresh {
+        let tmp = format!("{out}.{}", std::process::id());
+        let o = std::process::Command::new("cc").args(["-O1", "-Wall", "-shared", "-fPIC"]).arg(&src).args(["-ldl", "-o", &tmp]).output().map_err(|e| format!("cannot run cc: {e}"))?;
+        if !o.status.success() {
+            return Err(format!("envshim.c does not compile:\n{}", String::from_utf8_lossy(&o.stderr)));
+        }
+        std::fs::rename(&tmp, &out).map_err(|e| e.to_string())?;
+    }
+    Ok(out)
 }
 
 pub fn spec_for(ref_id: u32, leap: u16, ref_time_ns: i128) -> TrackSpec {
@@ -114,6 +144,17 @@ fn enter_namespace() -> Result<(), String> {
     Ok(())
 }
 
+fn add_virtual_iface(name: &str) -> Result<(), String> {
+    if !Path::new("/sys/devices/virtual/net/.cbv").exists() {
+        mount("tmpfs", "/sys/devices/virtual/net", Some("tmpfs"), 0)?;
+        let _ = std::fs::write("/sys/devices/virtual/net/.cbv", b"");
+    }
+    std::fs::create_dir_all(format!("/sys/devices/virtual/net/{name}/queues")).map_err(|e| e.to_string())?;
+    std::fs::write(format!("/sys/devices/virtual/net/{name}/uevent"), format!("INTERFACE={name}\nIFINDEX=7\n")).map_err(|e| e.to_string())?;
+    std::os::unix::fs::symlink(format!("../../devices/virtual/net/{name}"), format!("/sys/class/net/{name}")).map_err(|e| e.to_string())?;
+    Ok(())
+}
+
 pub fn tagged_spec(ref_id: u32, leap: u16, ref_time_ns: i128, k: usize) -> TrackSpec {
     TrackSpec { disp_bits: encode_float(0.01 + 0.001 * k as f64), ..spec_for(ref_id, leap, ref_time_ns) }
 }
@@ -151,13 +192,32 @@ fn bring_loopback_up() -> Result<(), String> {
     Ok(())
 }
 
-fn fake_chronyd(sc: &Scenario, arrivals: Arrivals) -> Result<(), String> {
+/// Where the 12-byte reference time sits in a tracking reply (found by comparing two replies).
+fn ref_time_offset() -> usize {
+    let a = tracking_wire(&spec_for(ID_OTHER, 0, 0), 1);
+    let b = tracking_wire(&spec_for(ID_OTHER, 0, (1i128 << 32) * 1_000_000_000), 1);
+    a.iter().zip(b.iter()).position(|(x, y)| x != y).expect("reference time in the wire format") - 3
+}
+
+type Poison = std::sync::Arc<std::sync::atomic::AtomicBool>;
+
+/// `poison`: when set, the next reply (one only) carries a reference time of all-ones bytes, on which the chrony
+/// protocol library panics while decoding - inside the daemon's polling thread. A one-shot death of that thread
+/// that an outsider can cause at a moment of its choosing.
+fn fake_chronyd(sc: &Scenario, arrivals: Arrivals, poison: Poison) -> Result<(), String> {
     let (ref_id, leap) = sc.chronyd.unwrap();
     let delays = if sc.reply_delays_ms.is_empty() { vec![sc.chronyd_delay_ms] } else { sc.reply_delays_ms.clone() };
     let tag = sc.tag_replies;
+    let off = ref_time_offset();
     let make = move |k: usize, seq: u32| -> Vec<u8> {
         let rt = real_now_ns() - 1_000_000_000;
-        if tag { tracking_wire(&tagged_spec(ref_id, leap, rt, k), seq) } else { tracking_wire(&spec_for(ref_id, leap, rt), seq) }
+        let mut w = if tag { tracking_wire(&tagged_spec(ref_id, leap, rt, k), seq) } else { tracking_wire(&spec_for(ref_id, leap, rt), seq) };
+        if poison.swap(false, std::sync::atomic::Ordering::SeqCst) {
+            for b in &mut w[off..off + 12] {
+                *b = 0xff;
+            }
+        }
+        w
     };
     if sc.udp_only {
         // SAFETY: plain system call
@@ -236,13 +296,18 @@ pub fn run_scenario(bin: &str, sc: &Scenario) -> Result<Value, String> {
         }
         // SAFETY: process-wide, the daemon inherits it (what a service manager gives a service)
         unsafe { libc::umask(0o022) };
+        for n in &sc.virtual_ifaces {
+            if let Err(e) = add_virtual_iface(n) {
+                return json!({"unavailable": e});
+            }
+        }
         let phc_path = format!("/sys/bus/pci/devices/{SLOT}/phc_error_bound");
         if let PhcFile::Value(v) = sc.phc {
             crate::histmc::pipeline::write_sysfs_like(Path::new(&phc_path), v);
         }
         let arrivals: Arrivals = Default::default();
         if sc.chronyd.is_some() {
-            if let Err(e) = fake_chronyd(&sc, arrivals.clone()) {
+            if let Err(e) = fake_chronyd(&sc, arrivals.clone(), Default::default()) {
                 return json!({"unavailable": e});
             }
         }
@@ -254,7 +319,15 @@ pub fn run_scenario(bin: &str, sc: &Scenario) -> Result<Value, String> {
             let _ = std::fs::create_dir_all("/var/run/clockbound");
             let _ = std::fs::write(shm, bytes);
         }
-        let mut child = match std::process::Command::new(&bin).args(&sc.args).stdin(std::process::Stdio::null()).stdout(std::process::Stdio::null()).stderr(std::process::Stdio::null()).spawn() {
+        let sink = |stream: u8| -> std::process::Stdio {
+            if sc.stdio_full == stream {
+                if let Ok(f) = std::fs::OpenOptions::new().write(true).open("/dev/full") {
+                    return f.into();
+                }
+            }
+            std::process::Stdio::null()
+        };
+        let mut child = match std::process::Command::new(&bin).args(&sc.args).envs(sc.env.iter().cloned()).stdin(std::process::Stdio::null()).stdout(sink(1)).stderr(sink(2)).spawn() {
             Ok(c) => c,
             Err(e) => return json!({"unavailable": format!("cannot start {bin}: {e}")}),
         };
@@ -320,5 +393,225 @@ pub fn run_scenario(bin: &str, sc: &Scenario) -> Result<Value, String> {
         let arr: Vec<String> = arrivals.lock().unwrap().iter().map(|a| a.to_string()).collect();
         json!({"publications": pubs, "chronyd_request_arrivals_mono_ns": arr, "daemon_exit_status": exit, "daemon_exited_after_ms": exit_after_ms, "segment_mode_octal": file_mode.map(|m| format!("{m:o}")), "directory_mode_octal": dir_mode.map(|m| format!("{m:o}")),
             "file_mode": file_mode, "dir_mode": dir_mode, "opened_by_uid_65534": other_user})
+    })
+}
+
+fn read_pub(shm: &str) -> Option<(u16, i128, u32, u64)> {
+    use std::os::unix::fs::MetadataExt;
+    let b = std::fs::read(shm).ok()?;
+    if b.len() < 72 {
+        return None;
+    }
+    let ino = std::fs::metadata(shm).ok()?.ino();
+    Some((u16::from_ne_bytes([b[14], b[15]]), i64::from_ne_bytes(b[16..24].try_into().unwrap()) as i128 * 1_000_000_000 + i64::from_ne_bytes(b[24..32].try_into().unwrap()) as i128, u32::from_ne_bytes(b[64..68].try_into().unwrap()), ino))
+}
+
+/// A daemon that ends by itself after it has been healthy, and its successor. The daemon runs with its PHC
+/// configured against a stand-in chronyd whose reference is that PHC; once it has published a Synchronized record
+/// a client attaches (and stays attached); then the PHC's error-bound attribute turns into something that is
+/// not a number - the one outside event that kills a worker thread of a running daemon (`expect` in the polling
+/// thread). Observed: how long the process survives its worker (C15), what it leaves at the segment path (C04),
+/// and - after the attribute is repaired and a second daemon started, as a supervisor would - whether the client
+/// that stayed attached sees the second daemon's publications in the same file (C04).
+/// `one_shot`: the worker dies of a single undecodable reply from chronyd instead (the cause is gone afterwards).
+/// `uptime_s` > 0: the daemon's monotonic clocks read that much less until its first publication (envshim.c
+/// CBV_SHIM_EARLY_S): to the daemon, its start-up was that long ago when the worker dies - nothing in the
+/// statement limits how long a daemon has been up.
+pub fn run_worker_death(bin: &str, shim: &str, uptime_s: u64, restart: bool, one_shot: bool) -> Result<Value, String> {
+    let (bin, shim) = (bin.to_string(), shim.to_string());
+    run_with_timeout(120, move || {
+        use std::os::unix::fs::MetadataExt;
+        if let Err(e) = enter_namespace() {
+            return json!({"unavailable": e});
+        }
+        // SAFETY: process-wide, the daemon inherits it
+        unsafe { libc::umask(0o022) };
+        let phc_path = format!("/sys/bus/pci/devices/{SLOT}/phc_error_bound");
+        crate::histmc::pipeline::write_sysfs_like(Path::new(&phc_path), 12345);
+        let arrivals: Arrivals = Default::default();
+        let chronyd = Scenario { chronyd: Some((ID_PHC, 0)), ..Scenario::blank() };
+        let poison: Poison = Default::default();
+        if let Err(e) = fake_chronyd(&chronyd, arrivals.clone(), poison.clone()) {
+            return json!({"unavailable": e});
+        }
+        let shm = "/var/run/clockbound/shm";
+        let mark = "/run/cbv-early";
+        let uptime_s = uptime_s.min((raw_mono_ns() / 2_000_000_000) as u64);
+        let start = || {
+            std::process::Command::new(&bin).args(["-r", "PHC0", "-i", IFACE]).env("LD_PRELOAD", &shim).env("CBV_SHIM_EARLY_S", uptime_s.to_string()).env("CBV_SHIM_EARLY_MARK", mark)
+                .stdin(std::process::Stdio::null()).stdout(std::process::Stdio::null()).stderr(std::process::Stdio::null()).spawn()
+        };
+        let mut child = match start() {
+            Ok(c) => c,
+            Err(e) => return json!({"unavailable": format!("cannot start {bin}: {e}")}),
+        };
+        let sleep = |ms: u64| crate::common::vclock::real_sleep(std::time::Duration::from_millis(ms));
+        // first lifetime: until a Synchronized record is there (the early-clock window ends at the first publication)
+        let t0 = mono_ms();
+        let mut marked = uptime_s == 0;
+        if marked {
+            let _ = std::fs::write(mark, b"");
+        }
+        let mut t_marked = t0;
+        let first = loop {
+            if let Some(p) = read_pub(shm) {
+                if !marked && p.0 != 0 {
+                    let _ = std::fs::write(mark, b"");
+                    marked = true;
+                    t_marked = mono_ms();
+                }
+                // (with shifted early clocks: a record published well after the window closed)
+                if p.0 != 0 && p.0 % 2 == 0 && p.2 == 1 && marked && (uptime_s == 0 || mono_ms() - t_marked > 2500) {
+                    break Some(p);
+                }
+            }
+            if mono_ms() - t0 > 20_000 || child.try_wait().map(|s| s.is_some()).unwrap_or(true) {
+                break None;
+            }
+            sleep(5);
+        };
+        let Some(first) = first else {
+            let _ = child.kill();
+            let _ = child.wait();
+            return json!({"first_lifetime_never_synchronized": true});
+        };
+        let c = std::ffi::CString::new(shm).unwrap();
+        let mut attached = clock_bound_shm::ShmReader::new(&c).ok();
+        let attached_first = attached.as_mut().and_then(|r| r.snapshot().ok().map(|ceb| crate::common::rec::Rec::from_ceb(ceb)));
+        // the attribute turns into garbage: the polling thread dies at its next poll (and would die again at once if
+        // it were started again). `one_shot`: instead, ONE reply of chronyd is undecodable (see `fake_chronyd`):
+        // the polling thread dies of it once, and everything is in order again afterwards
+        if one_shot {
+            poison.store(true, std::sync::atomic::Ordering::SeqCst);
+        } else {
+            let _ = std::fs::write(&phc_path, b"not-a-number\n");
+        }
+        let t_break = mono_ms();
+        let mut exit: Option<i32> = None;
+        let mut exited_after: Option<u64> = None;
+        while mono_ms() - t_break < 15_000 {
+            if let Ok(Some(st)) = child.try_wait() {
+                exit = Some(st.code().unwrap_or(-1));
+                exited_after = Some(mono_ms() - t_break);
+                break;
+            }
+            sleep(5);
+        }
+        let requests_after_break = arrivals.lock().unwrap().iter().filter(|a| **a / 1_000_000 > t_break as i128).count();
+        if exit.is_none() {
+            let _ = child.kill();
+            let _ = child.wait();
+        }
+        let left = read_pub(shm);
+        let left_len = std::fs::metadata(shm).ok().map(|m| m.len());
+        let mut out = json!({"first_synchronized_publication": {"generation": first.0, "inode": first.3}, "attached_client_first_record": attached_first.as_ref().map(|r| r.json()),
+            "daemon_clock_shift_s": uptime_s, "daemon_exit_status": exit, "daemon_exited_ms_after_the_attribute_broke": exited_after, "tracking_requests_after_the_attribute_broke": requests_after_break,
+            "left_behind": {"exists": left_len.is_some(), "length": left_len, "generation": left.map(|l| l.0), "inode": left.map(|l| l.3), "status": left.map(|l| l.2)}});
+        if restart {
+            let _ = std::fs::remove_file(&phc_path);
+            crate::histmc::pipeline::write_sysfs_like(Path::new(&phc_path), 12345);
+            let mut second = match start() {
+                Ok(c) => c,
+                Err(e) => return json!({"unavailable": format!("cannot start {bin}: {e}")}),
+            };
+            let t1 = mono_ms();
+            let before = left;
+            let fresh = loop {
+                if let Some(p) = read_pub(shm) {
+                    if p.0 != 0 && p.0 % 2 == 0 && p.2 == 1 && before.map(|b| (b.0, b.1) != (p.0, p.1)).unwrap_or(true) {
+                        break Some(p);
+                    }
+                }
+                if mono_ms() - t1 > 20_000 || second.try_wait().map(|s| s.is_some()).unwrap_or(true) {
+                    break None;
+                }
+                sleep(5);
+            };
+            // the client that stayed attached: what does it see now? (a few tries: the daemon keeps publishing)
+            let mut seen = None;
+            if let (Some(f), Some(r)) = (fresh, attached.as_mut()) {
+                for _ in 0..400 {
+                    if let Ok(ceb) = r.snapshot() {
+                        let rec = crate::common::rec::Rec::from_ceb(ceb);
+                        let as_of = rec.as_of_s as i128 * 1_000_000_000 + rec.as_of_ns as i128;
+                        seen = Some(json!({"as_of_ns": as_of.to_string(), "status": rec.status}));
+                        if as_of >= f.1 {
+                            break;
+                        }
+                    }
+                    sleep(5);
+                }
+            }
+            let _ = second.kill();
+            let _ = second.wait();
+            out["second_lifetime"] = json!({"published_synchronized": fresh.is_some(), "generation": fresh.map(|f| f.0), "as_of_ns": fresh.map(|f| f.1.to_string()), "inode": fresh.map(|f| f.3),
+                "inode_of_path_now": std::fs::metadata(shm).ok().map(|m| m.ino()), "attached_client_sees": seen,
+                "attached_client_caught_up": match (fresh, &seen) { (Some(f), Some(s)) => s["as_of_ns"].as_str().and_then(|a| a.parse::<i128>().ok()).map(|a| a >= f.1).unwrap_or(false), _ => false }});
+        }
+        out
+    })
+}
+
+/// A daemon that stops for ever (not dies: a hung disk under fsync, SIGSTOP, a frozen cgroup) at a chosen point of
+/// creating its segment, and a client - another process - that opens the segment while the daemon is stopped there.
+/// What the kernel keeps for a stopped process (descriptors, record locks) is still in force, unlike after a death;
+/// the in-process explorations cannot see that difference. The client must come back (with a record or an error)
+/// within `limit_ms` of real time.
+pub fn run_stalled_daemon(bin: &str, shim: &str, stall: &str, preexisting: Option<Vec<u8>>, limit_ms: u64) -> Result<Value, String> {
+    let (bin, shim, stall) = (bin.to_string(), shim.to_string(), stall.to_string());
+    run_with_timeout(60, move || {
+        if let Err(e) = enter_namespace() {
+            return json!({"unavailable": e});
+        }
+        // SAFETY: process-wide, the daemon inherits it
+        unsafe { libc::umask(0o022) };
+        let shm = "/var/run/clockbound/shm";
+        if let Some(bytes) = &preexisting {
+            let _ = std::fs::create_dir_all("/var/run/clockbound");
+            let _ = std::fs::write(shm, bytes);
+        }
+        let mark = "/run/cbv-stalled";
+        let mut child = match std::process::Command::new(&bin).env("LD_PRELOAD", &shim).env("CBV_SHIM_STALL", &stall).env("CBV_SHIM_MARK", mark)
+            .stdin(std::process::Stdio::null()).stdout(std::process::Stdio::null()).stderr(std::process::Stdio::null()).spawn() {
+            Ok(c) => c,
+            Err(e) => return json!({"unavailable": format!("cannot start {bin}: {e}")}),
+        };
+        let sleep = |ms: u64| crate::common::vclock::real_sleep(std::time::Duration::from_millis(ms));
+        let t0 = mono_ms();
+        let mut reached = false;
+        while mono_ms() - t0 < 15_000 {
+            if Path::new(mark).exists() {
+                reached = true;
+                break;
+            }
+            if child.try_wait().map(|s| s.is_some()).unwrap_or(true) {
+                break;
+            }
+            sleep(3);
+        }
+        if !reached {
+            let _ = child.kill();
+            let _ = child.wait();
+            return json!({"stall_point_reached": false});
+        }
+        sleep(50);
+        let file_len = std::fs::metadata(shm).ok().map(|m| m.len());
+        let (tx, rx) = std::sync::mpsc::channel();
+        std::thread::spawn(move || {
+            let t = mono_ms();
+            let c = std::ffi::CString::new(shm).unwrap();
+            let outcome = match clock_bound_shm::ShmReader::new(&c) {
+                Ok(mut r) => match r.snapshot() {
+                    Ok(_) => "opened, snapshot Ok".to_string(),
+                    Err(e) => format!("opened, snapshot {e:?}"),
+                },
+                Err(e) => format!("open {e:?}"),
+            };
+            let _ = tx.send((outcome, mono_ms() - t));
+        });
+        let got = rx.recv_timeout(std::time::Duration::from_millis(limit_ms)).ok();
+        let _ = child.kill();
+        let _ = child.wait();
+        json!({"stall_point_reached": true, "segment_file_length_at_the_stall": file_len, "client_returned": got.is_some(), "client_outcome": got.as_ref().map(|g| g.0.clone()), "client_took_ms": got.as_ref().map(|g| g.1), "limit_ms": limit_ms})
     })
 }
